@@ -351,6 +351,11 @@ pub fn cases(tier: Tier, seed: u64) -> Vec<Case> {
         let act = if i % 4 == 0 { Act::Tanh } else { Act::Linear };
         out.push(deconv_case(c.clone(), act, i % 3 == 1));
     }
+    // always: disjoint output windows (stride >= kernel) with two input channels and two filters
+    for (k, s) in [((1usize, 1usize), (2usize, 2usize)), ((2, 2), (2, 2)), ((1, 2), (2, 3))] {
+        let c = Cfg { ic: 2, ih: 2, iw: 2, f: 2, k, s, p: (0, 0), d: (1, 1) };
+        out.push(deconv_case(c, Act::Linear, k == (2, 2)));
+    }
     // max-pool
     let pools: Vec<Cfg> = {
         let mut v = Vec::new();
